@@ -317,7 +317,7 @@ def run_history(ctx, n=None, cases=None, label="MarkupHistoryTrace (reused parse
     events = vlib.read_ndjson(ctx.path("htrace.ndjson"))
     if res["lines"] != len(events):
         raise vlib.MachineryError("history trace not consumed completely: %d of %d" % (res["lines"], len(events)))
-    lines = {l["id"]: l["cps"] for l in vlib.read_ndjson(ctx.path("hlines.ndjson"))}
+    lines = {(l["b"], l["id"]): l["cps"] for l in vlib.read_ndjson(ctx.path("hlines.ndjson"))}
     hcases = vlib.read_ndjson(ctx.path("hcases.ndjson"))
     per_sig = {}
     for b in res["bad"]:
@@ -327,23 +327,26 @@ def run_history(ctx, n=None, cases=None, label="MarkupHistoryTrace (reused parse
         ref = events[b["ref"] - 1]
         per_sig.setdefault(history_diff_signature(ref, got), []).append((b, ref, got))
     for sig, lst in sorted(per_sig.items()):
-        lst.sort(key=lambda x: len(lines[x[0]["id"]]))
+        lst.sort(key=lambda x: len(lines[(x[2]["b"], x[0]["id"])]))
         shown = [next((x for x in lst if x[2]["p"] == kind), None) for kind in ("reused", "runner")]
         for b, ref, got in [x for x in shown if x is not None]:
-            ctx.violation({"kind": "history", "case": hcases[b["h"] - 1], "line": lines[b["id"]]},
-                          "[%d case(s) of this class] %s" % (len(lst), describe_history(cps_to_str(lines[b["id"]]), ref, got)),
+            line = lines[(got["b"], b["id"])]
+            ctx.violation({"kind": "history", "case": hcases[b["h"] - 1], "line": line},
+                          "[%d case(s) of this class] %s" % (len(lst), describe_history(cps_to_str(line), ref, got)),
                           signature=sig)
     st["checked"] = res["checked"]
     st["bad"] = len(res["bad"])
     st["events_list"] = events
-    st["sample"] = cps_to_str(lines[len(lines) // 2 + 1]) if lines else ""
+    st["sample"] = cps_to_str(sorted(lines.items())[len(lines) // 2][1]) if lines else ""
     return st
 
 
 def history_selftest(ctx, events):
     """Corrupt the SourcePosition of one accepted reused-parser event: the trace spec must reject exactly it."""
     out, picked = [], None
-    for i, e in enumerate(events[:600]):
+    nb = next((i for i, e in enumerate(events) if i > 0 and e.get("ev") == "header"), len(events))
+    events = events[:min(nb, 600)]     # (a prefix of) the first batch
+    for i, e in enumerate(events):
         if picked is None and e.get("p") in ("reused", "runner") and e["outcome"] == "result" and e["got"]["attrs"]:
             e = json.loads(json.dumps(e))
             e["got"]["attrs"][0]["src"] += 1
@@ -356,7 +359,7 @@ def history_selftest(ctx, events):
         vlib.write_ndjson(ctx.path(name), evs)
         t = ctx.tlc("MarkupHistoryTrace", files=[("trace.ndjson", ctx.path(name))], workers=1, timeout=600, label=label)
         return {b["line"] for b in t.printed("RESULT")[-1]["bad"]}
-    base = bad_lines(events[:600], "hself0.ndjson", "MarkupHistoryTrace (self-test baseline)")
+    base = bad_lines(events, "hself0.ndjson", "MarkupHistoryTrace (self-test baseline)")
     new = bad_lines(out, "hself1.ndjson", "MarkupHistoryTrace (self-test, one corrupted SourcePosition)") - base
     if picked in base or new != {picked}:
         raise vlib.MachineryError("history self-test failed: corrupted event %d, newly rejected %s" % (picked, sorted(new)))
